@@ -1087,6 +1087,16 @@ fn main() {
 			}
 			btc_stream(&mut run, &mut rng, args.thorough);
 		}
+		// CollectionLength boundary (0xfffe / 0xffff / 0x10000 bytes: the 2-byte form, the first and second value of the ffff + u64 escape)
+		if rep == 0 {
+			for n in [0xfffeusize, 0xffff, 0x10000] {
+				let m = msgs::TxAbort { channel_id: g.cid(&mut rng), data: rng.bytes(n) };
+				let e = m.encode();
+				if <msgs::TxAbort as LengthReadable>::read_from_fixed_length_buffer(&mut &e[..]).ok().as_ref() != Some(&m) { run.rec.oracle_fail(format!("decode(encode(m)) != m for a TxAbort with {} data bytes", n)); }
+				run.case_dec("TxAbort", &e, "colllen-boundary");
+				run.case_dec("TxAbort", &e[..e.len() - 1], "colllen-boundary-trunc");
+			}
+		}
 		// unknown / cfg-gated / short type ids
 		for _ in 0..40 {
 			let id: u16 = match rng.below(5) { 0 => 40 + rng.below(2) as u16, 1 => rng.below(300) as u16, 2 => 32768 + rng.below(32768) as u16, _ => rng.next() as u16 };
